@@ -314,7 +314,9 @@ class Machine:
             out["p"] = p
         elif kind == "pickle":
             x = self.pool[var]
-            blob = pickle.dumps(x)
+            import cloudpickle
+
+            blob = cloudpickle.dumps(x)
             y = pickle.loads(blob)
             self.pool[ev["out"]] = y
             self.origin[ev["out"]] = self.origin.get(var)
